@@ -3,6 +3,7 @@ package verifharness
 import (
 	"bufio"
 	"bytes"
+	"encoding/base64"
 	"fmt"
 	"net"
 	"net/http"
@@ -27,13 +28,16 @@ type httpCase struct {
 	seen    *rawMsg // what the backend recorded
 	xff     string  // X-Forwarded-For sent by the user ("" none)
 	user    string  // user's address
+	wantAt  string  // backend that must serve it ("web" or "web2")
+	seenAt  string
 }
 
 type httpWorld struct {
-	w       *World
-	mu      sync.Mutex
-	cases   map[int]*httpCase
-	tunnels map[string]*httpTunnel
+	w         *World
+	mu        sync.Mutex
+	cases     map[int]*httpCase
+	tunnels   map[string]*httpTunnel
+	twoRoutes bool // a second proxy on the same host, routed by http user "alice", with its own backend
 }
 
 func (hw *httpWorld) viol(oracle, sig, f string, a ...any) { hw.w.Violate("C02", oracle, sig, f, a...) }
@@ -90,13 +94,23 @@ func worldHTTP(w *World) {
 	if setResp {
 		pa["responseHeaders"] = map[string]any{"set": map[string]string{"X-Resp-Frp": "1"}}
 	}
+	hw.twoRoutes = w.KnobBool("second_route_by_user", 50)
+	proxies := []map[string]any{pa}
+	if hw.twoRoutes {
+		pb := map[string]any{}
+		for k, v := range pa {
+			pb[k] = v
+		}
+		pb["name"], pb["localPort"], pb["routeByHTTPUser"] = "web2", 9102, "alice"
+		proxies = append(proxies, pb)
+	}
 	pdead := map[string]any{"name": "dead", "type": "http", "localIP": "127.0.0.1", "localPort": 9199, "customDomains": []string{"dead.example.test"}}
 	psilent := map[string]any{"name": "silent", "type": "http", "localIP": "127.0.0.1", "localPort": 9101, "customDomains": []string{"silent.example.test"}}
 	ccfg := map[string]any{
 		"serverAddr": "10.0.0.1", "serverPort": 7000, "loginFailExit": false,
 		"auth":      map[string]any{"token": token},
 		"transport": map[string]any{"tcpMux": tcpMux, "connectServerLocalIP": "10.0.1.1", "tls": map[string]any{"enable": w.KnobBool("tls", 50)}, "poolCount": w.KnobPick("pool", 0, 1, 3)},
-		"proxies":   []map[string]any{pa, pdead, psilent},
+		"proxies":   append(proxies, pdead, psilent),
 	}
 	c1 := w.Net.NewNode("frpc1", "10.0.1.1")
 	if _, err := w.StartFrpc(c1, ccfg); err != nil {
@@ -113,7 +127,17 @@ func worldHTTP(w *World) {
 			if err != nil {
 				return
 			}
-			go hw.backendConn(c)
+			go hw.backendConn(c, "web")
+		}
+	})
+	ln2, _ := w.Net.Listen("tcp", "127.0.0.1:9102")
+	w.Backend.Go(func() {
+		for {
+			c, err := ln2.Accept()
+			if err != nil {
+				return
+			}
+			go hw.backendConn(c, "web2")
 		}
 	})
 	sln, _ := w.Net.Listen("tcp", "127.0.0.1:9101")
@@ -135,7 +159,7 @@ func worldHTTP(w *World) {
 		}
 	})
 	if !w.WaitUntil(60*time.Second, 100*time.Millisecond, func() bool {
-		return w.FrpLogContains("[web] start proxy success") && w.FrpLogContains("[dead] start proxy success") && w.FrpLogContains("[silent] start proxy success")
+		return w.FrpLogContains("[web] start proxy success") && (!hw.twoRoutes || w.FrpLogContains("[web2] start proxy success")) && w.FrpLogContains("[dead] start proxy success") && w.FrpLogContains("[silent] start proxy success")
 	}) {
 		hw.viol("startup", "proxy-not-up", "http proxies not registered within 60 s")
 		return
@@ -235,6 +259,14 @@ func (hw *httpWorld) genCase(id int, r *simnet.Rand, maxBody int) *httpCase {
 	req.Target = p.String()
 	req.Headers = append(req.Headers, hdr{[]string{"Host", "host", "HOST"}[r.Intn(3)], "a.example.test"})
 	req.Headers = append(req.Headers, hdr{"X-Case", fmt.Sprint(id)})
+	c.wantAt = "web"
+	if hw.twoRoutes && r.Intn(3) == 0 {
+		// a request of http user alice belongs to the proxy routed by that user; any other user or none to the other
+		req.Headers = append(req.Headers, hdr{"Authorization", "Basic " + base64.StdEncoding.EncodeToString([]byte("alice:"+randToken(r, 6)))})
+		c.wantAt = "web2"
+	} else if hw.twoRoutes && r.Intn(4) == 0 {
+		req.Headers = append(req.Headers, hdr{"Authorization", "Basic " + base64.StdEncoding.EncodeToString([]byte("bob:"+randToken(r, 6)))})
+	}
 	nh := r.Range(0, 8)
 	for i := 0; i < nh; i++ {
 		name := fmt.Sprintf("X-Hdr-%d", r.Intn(5))
@@ -319,7 +351,7 @@ func (hw *httpWorld) genCase(id int, r *simnet.Rand, maxBody int) *httpCase {
 	return c
 }
 
-func (hw *httpWorld) backendConn(conn net.Conn) {
+func (hw *httpWorld) backendConn(conn net.Conn, which string) {
 	defer conn.Close()
 	br := bufio.NewReaderSize(conn, 64<<10)
 	for {
@@ -351,6 +383,7 @@ func (hw *httpWorld) backendConn(conn net.Conn) {
 			return
 		}
 		c.seen = m
+		c.seenAt = which
 		hw.mu.Unlock()
 		rr := simnet.NewRand(hw.w.In.Seed, fmt.Sprintf("bchunk%d", c.id))
 		out := c.resp.encode(false, func() int { return rr.Range(1, 5000) })
@@ -438,6 +471,9 @@ func (hw *httpWorld) checkCase(c *httpCase, got *rawMsg, rewriteHost string, set
 	if seen == nil {
 		hw.viol("request", "request-not-delivered", "%s: the backend never saw it; user got status %d", desc, got.Status)
 		return
+	}
+	if c.seenAt != c.wantAt {
+		hw.viol("request", "request-delivered-to-wrong-backend", "%s: belongs to proxy %s, was delivered to the backend of %s", desc, c.wantAt, c.seenAt)
 	}
 	if seen.Method != c.req.Method {
 		hw.viol("request", "method-changed", "%s: backend saw method %q", desc, seen.Method)
